@@ -4,6 +4,7 @@ import QP.Proofs.PTTop
 import QP.Proofs.PTTopW
 import QP.Proofs.PTTop2W
 import QP.Proofs.PTTop3W
+import QP.Proofs.PTSingle
 /-!
 # C04 — durations are exact and the template, the program and its pieces agree on them
 
@@ -79,6 +80,22 @@ theorem duration_agree_reversal_partial {pt : PT} (hs : Stage3R pt) (params : Li
   cases prog? with
   | some prog => exact this.1
   | none => exact this.1.symm
+
+/-- **durations for every `to_single_waveform` set** (C05 `collapse_invariant_partial` on top of
+`duration_agree_partial`): all composite constructors incl. time reversal, outside C05's exclusion class `cleanW`,
+under C05's output-checkable side conditions. -/
+theorem duration_agree_single_partial {pt : PT} (hs : Stage3R pt) (params : List (String × Rat))
+    (mm : Option (List (MName × Option MName))) (cm : List (Chan × Option Chan)) (S : List String)
+    (prog0 progS : Loop) (P : Pulse)
+    (h0 : createProgram pt params mm cm [] = .ok (some prog0))
+    (hnn0 : QP.C05.allLeaves QP.C05.nonnegW prog0 = true)
+    (hS : createProgram pt params mm cm S = .ok (some progS))
+    (hden : denoteTop pt params mm cm = .ok P)
+    (hclean : QP.C05.cleanW S false false pt = true)
+    (c : Chan) (ht0 : QP.C05.allLeaves (QP.C05.tidy c) prog0 = true)
+    (htS : QP.C05.allLeaves (QP.C05.tidy c) progS = true) :
+    progS.duration = P.dur :=
+  (createProgram_single_W hs params mm cm S prog0 progS P h0 hnn0 hS hden hclean c ht0 htS).1
 
 /-! ## Non-vacuity -/
 
